@@ -19,6 +19,7 @@ def stream_event(kind, key, nonce, rounds, m, ctr0=0, op='enc'):
     return e
 
 def run(ctx):
+    ctx.claim_exhaustive = False      # keys / messages / parameters are sampled over an enumerated grid; only the spec-level models are exhaustive
     rnd = ctx.rnd; big = ctx.big()
     ctx.model_check('mc/MC_Rc4.tla', what='MC_Rc4 (N=8: every split of 6 bytes, 4 keys)')
     rb = lambda n: bytes(rnd.randrange(256) for _ in range(n))
